@@ -852,7 +852,7 @@ for p in absv:
 
 results = parallel_map(lambda t: t[2](t[3]), tasks, jobs=jobs)
 reported = set()
-nneg_done = 0
+shrunk = []
 for (sub, cases, fn, arg), rs in zip(tasks, results):
     for case, r in zip(cases, rs):
         if r is None:
@@ -864,7 +864,9 @@ for (sub, cases, fn, arg), rs in zip(tasks, results):
         if not u.is_known(r.key) and r.key in reported:
             continue
         reported.add(r.key)
-        if sub in ("positive", "square_root") and not u.is_known(r.key):
+        if sub in ("positive", "square_root") and not u.is_known(r.key) and not shrunk:
+            # only the first new failure is shrunk (each shrink step is a compilation)
+            shrunk.append(r.key)
             small, r2 = shrink_positive(case, r.key)
             if r2 is not None:
                 case, r = small, r2
